@@ -20,21 +20,25 @@ type Reader struct {
 	data []byte
 	pos  int64
 
-	Chunk     int           // max bytes per Read (0 = unlimited)
-	FailAt    int64         // 1-based Read call index at which FailErr is returned (0 = never)
-	FailErr   error         // error returned at FailAt
-	DelayAt   map[int64]time.Duration // delay before serving the read that starts at this offset
-	OnRead    func(off int64, n int)  // called after every successful Read
+	Chunk   int                     // max bytes per Read (0 = unlimited)
+	FailAt  int64                   // 1-based Read call index at which FailErr is returned (0 = never)
+	FailErr error                   // error returned at FailAt
+	DelayAt map[int64]time.Duration // delay before serving the read that starts at this offset
+	OnRead  func(off int64, n int)  // called after every successful Read
 
-	bytes atomic.Int64
-	calls atomic.Int64
-	mu    sync.Mutex
+	bytes   atomic.Int64
+	calls   atomic.Int64
+	eofCall atomic.Int64
+	inRead  atomic.Int32
+	mu      sync.Mutex
 }
 
 // NewReader wraps data.
 func NewReader(data []byte) *Reader { return &Reader{data: data} }
 
 func (r *Reader) Read(p []byte) (int, error) {
+	r.inRead.Add(1)
+	defer r.inRead.Add(-1)
 	call := r.calls.Add(1)
 	if r.FailAt > 0 && call >= r.FailAt {
 		return 0, r.FailErr
@@ -46,6 +50,7 @@ func (r *Reader) Read(p []byte) (int, error) {
 		time.Sleep(d)
 	}
 	if pos >= int64(len(r.data)) {
+		r.eofCall.CompareAndSwap(0, call)
 		return 0, io.EOF
 	}
 	n := len(p)
@@ -68,6 +73,12 @@ func (r *Reader) Read(p []byte) (int, error) {
 
 // Bytes returns the number of bytes served so far.
 func (r *Reader) Bytes() int64 { return r.bytes.Load() }
+
+// InRead reports whether some goroutine is inside Read right now.
+func (r *Reader) InRead() bool { return r.inRead.Load() > 0 }
+
+// EOFCall returns the index of the first Read call that returned io.EOF (0 = none yet).
+func (r *Reader) EOFCall() int64 { return r.eofCall.Load() }
 
 // Calls returns the number of Read calls so far.
 func (r *Reader) Calls() int64 { return r.calls.Load() }
@@ -230,7 +241,11 @@ func WaitNoLibGoroutines(pkg string, polls int) []string {
 			return nil
 		}
 		runtime.Gosched()
-		time.Sleep(time.Duration(i+1) * 200 * time.Microsecond)
+		d := time.Duration(i+1) * 100 * time.Microsecond
+		if d > 2*time.Millisecond {
+			d = 2 * time.Millisecond
+		}
+		time.Sleep(d)
 	}
 	return left
 }
